@@ -246,3 +246,55 @@ Qed.
 (* the genuine token used above IS what the library's seal produces *)
 Example C02_v2_tag_tamper_nonvacuous_is_sealed : p_v2 = z 24 ++ msg ++ z 16.
 Proof. vm_compute. reflexivity. Qed.
+
+(* ---- text level ---- *)
+From PV Require Import Base64 Text TextProofs.
+Definition fdec_any (b : bytes) : option bytes := Some b.
+Definition txt0 : bytes := str "v4.local.aGVsbG8sIHdvcmxk".          (* 12 payload bytes, whole blocks, no footer *)
+(* extension by whole characters that still parses: other bytes *)
+Example C02_text_extension_changes_token_nonvacuous :
+  forall t t' v v',
+    parse_token fdec_any (str "v4") [] (str ".local.") txt0 = Ok (t, v) ->
+    parse_token fdec_any (str "v4") [] (str ".local.") (txt0 ++ str "IQ") = Ok (t', v') -> t' <> t.
+Proof.
+  intros t t' v v' H1 H2.
+  apply (C02_text_extension_changes_token _ fdec_any (str "v4") [] (str ".local.") txt0 (str "IQ") t t' v v' H1 H2); discriminate.
+Qed.
+Example C02_text_extension_hyps_hold :
+  exists t t', parse_token fdec_any (str "v4") [] (str ".local.") txt0 = Ok (t, []) /\
+               parse_token fdec_any (str "v4") [] (str ".local.") (txt0 ++ str "IQ") = Ok (t', []) /\
+               length (t_payload t) = 12 /\ length (t_payload t') = 13.
+Proof. eexists; eexists. vm_compute. repeat split. Qed.
+(* the dangling-character extension (one character after whole blocks): whatever the character other than the dot,
+   the text does not parse to the 12-byte, footer-less token *)
+Example C02_text_dangling_character_rejected :
+  forallb (fun c => match parse_token fdec_any (str "v4") [] (str ".local.") (txt0 ++ [c]) with
+                    | Ok (t, _) => negb (Nat.eqb (length (t_payload t)) 12) || negb (Nat.eqb (length (t_footer t)) 0)
+                    | _ => true end) (filter (fun c => negb (N.eqb (b2n c) 46)) (map (fun i => n2b (N.of_nat i)) (seq 0 256))) = true.
+Proof. vm_compute. reflexivity. Qed.
+(* the exception is real: the dot *)
+Example C02_text_extension_dot_is_the_alias :
+  exists t, parse_token fdec_any (str "v4") [] (str ".local.") txt0 = Ok (t, []) /\
+            parse_token fdec_any (str "v4") [] (str ".local.") (txt0 ++ [dot]) = Ok (t, []).
+Proof. eexists. vm_compute. split; reflexivity. Qed.
+Example C02_text_truncation_changes_token_nonvacuous :
+  forall t t' v v',
+    parse_token fdec_any (str "v4") [] (str ".local.") (txt0 ++ str "IQ") = Ok (t, v) ->
+    parse_token fdec_any (str "v4") [] (str ".local.") txt0 = Ok (t', v') -> t' <> t.
+Proof.
+  intros t t' v v' H1 H2.
+  apply (C02_text_truncation_changes_token _ fdec_any (str "v4") [] (str ".local.") txt0 (str "IQ") t t' v v' H1 H2); discriminate.
+Qed.
+Example C02_text_substitution_changes_token_nonvacuous :
+  forall t t' v v',
+    parse_token fdec_any (str "v4") [] (str ".local.") txt0 = Ok (t, v) ->
+    parse_token fdec_any (str "v4") [] (str ".local.") (str "v4.local.aGVsbG8sIHdvcmxl") = Ok (t', v') -> t' <> t.
+Proof.
+  intros t t' v v' H1 H2.
+  apply (C02_text_substitution_changes_token _ fdec_any (str "v4") [] (str ".local.") _ _ t t' v v' H1 H2).
+  - vm_compute. reflexivity.
+  - vm_compute. discriminate.
+Qed.
+Example C02_text_substitution_hyps_hold :
+  exists t', parse_token fdec_any (str "v4") [] (str ".local.") (str "v4.local.aGVsbG8sIHdvcmxl") = Ok (t', []).
+Proof. eexists. vm_compute. reflexivity. Qed.
